@@ -4,7 +4,7 @@ CONSTANTS
   Kinds = {"watson", "cwmm", "bingham", "cbmm", "cacgmm", "vmfmm"}
   Stateful = {"watson", "cwmm", "bingham", "cbmm"}
   Dims = {2, 3}
-  MaxCs = {500, 50, 0}
+  MaxCs = {500, 50, 0, 20}
   Datas = {1, 2, 3}
   MaxLen = 100
 INVARIANT FlushInv
